@@ -4,7 +4,7 @@
    A scenario is a sequence of exchanges [req |-> kind, resp |-> kind]; each message is a sequence of pieces
    (tokens) with a role:  n  blank line before the request line     h  part of the head     H  piece completing the head
                            b  part of the body                       B  piece completing the body
-   request kinds   get head crlf_get post_cl post_chunked expect bad(Content-Length + Transfer-Encoding: rejected)
+   request kinds   get head crlf_get crlf2_get lf3_get post_cl post_chunked expect bad(Content-Length + Transfer-Encoding: rejected)
    response kinds  cl chunked eof(body until close) nobody(204) bad(Content-Length + Transfer-Encoding: rejected)
    DeliverC(k) / DeliverS(k) hand the next k pieces to the proxy as one DataReceived; the origin server's pieces for
    exchange i exist only after request i was forwarded (causality).  What the code does with a segment is computed by
@@ -26,6 +26,8 @@ vars == <<scn, st, ncseg, nsseg, ended, mon, obs>>
 
 ReqToks(k) == CASE k \in {"get", "head"} -> <<"h", "h", "H">>
                 [] k = "crlf_get" -> <<"n", "h", "h", "H">>
+                [] k = "crlf2_get" -> <<"n", "n", "h", "h", "H">>            \* two empty lines (CRLF CRLF) before the request line
+                [] k = "lf3_get" -> <<"n", "n", "n", "h", "h", "H">>         \* three bare LF
                 [] k \in {"post_cl", "expect", "bad"} -> <<"h", "H", "b", "B">>
                 [] k = "post_chunked" -> <<"h", "H", "b", "b", "B">>
 RespToks(k, nobody) == IF nobody \/ k = "nobody" THEN <<"h", "H">>
@@ -124,7 +126,7 @@ RefW(s) == Drain(s, DelC(s, W0, Len(Flat(s, 1))), 3 * Len(s) + 2)
 Init == scn = <<>> /\ st = W0 /\ ncseg = 0 /\ nsseg = 0 /\ ended = FALSE /\ mon = MonInit /\ obs = <<>>
 Live == mon.bad = <<>> /\ ~ended
 Emit(evs) == obs' = evs /\ mon' = FoldEvents(MonStep, mon, evs)
-Feat(s) == IF \E i \in 1..Len(s) : s[i].req = "crlf_get" THEN "blank_line" ELSE "plain"
+Feat(s) == IF \E i \in 1..Len(s) : s[i].req \in {"crlf_get", "crlf2_get", "lf3_get"} THEN "blank_line" ELSE "plain"
 
 Start(s) ==
   /\ Live /\ scn = <<>> /\ scn' = s /\ UNCHANGED <<st, ncseg, nsseg, ended>>
